@@ -973,7 +973,14 @@ def impl(c):
         probe = cls(**kw, id=b"\x01" * 20)          # explicit id: nothing is hashed
     except Exception as e:
         return {"error": "cannot build: " + exc_class(e)}
-    am = attrs_manifest(kind, probe)
+    try:
+        am = attrs_manifest(kind, probe)
+    except Exception as e:
+        if what == "foreign":
+            # another slice's generator produced an object the library cannot format (e.g. a non-ASCII payload_type, which
+            # that slice expects to be refused): not an object of this property's domain, never an alarm
+            return {"attrs": None, "has_raw": False, "steps": [], "foreign_unavailable": exc_class(e)}
+        raise
     has_raw = _has_raw(kind)
     steps = []
     res = {"attrs": None if am is None else am.hex(), "has_raw": has_raw, "steps": steps}
